@@ -13,7 +13,7 @@ ASSUMPTIONS = c02.ASSUMPTIONS
 def jobs(tier, seed):
     out = []
     for j in c02.jobs(tier, seed):
-        j = dict(j); j['cfg'] = {'gens': 2, 'dump': 1}
+        j = dict(j); j['cfg'] = {'gens': 2, 'dump': 1, 'obsfiles': 0}
         out.append(j)
     return out
 
